@@ -766,8 +766,15 @@ func c06Sticky(c *c06Ctx, reach map[*ssa.Function]bool) {
 		} else {
 			rfH := reachFrom(header)
 			inLoop := func(b *ssa.BasicBlock) bool { return b == header || (rfH[b] && reachFrom(b)[header]) }
-			if inLoop(w.call.Block()) || inLoop(w.load.Block()) {
-				ok, detail = false, "the condition is written (or the flag read) inside the loop"
+			avoid := map[*ssa.BasicBlock]bool{}
+			for _, o := range w.outers {
+				if inLoop(o.Block()) {
+					ok, detail = false, "the condition is written inside the loop"
+				}
+				avoid[o.Block()] = true
+			}
+			if w.holder == c.eval && inLoop(w.load.Block()) {
+				ok, detail = false, "the flag is read inside the loop"
 			}
 			for _, b := range c.eval.Blocks {
 				if !inLoop(b) {
@@ -777,7 +784,7 @@ func c06Sticky(c *c06Ctx, reach map[*ssa.Function]bool) {
 					if inLoop(s) {
 						continue
 					}
-					seen := reachFromAvoiding(s, map[*ssa.BasicBlock]bool{w.call.Block(): true})
+					seen := reachFromAvoiding(s, avoid)
 					for x := range seen {
 						if isReturnBlock(x) {
 							ok, detail = false, fmt.Sprintf("a path from the loop exit reaches the return at %s without writing the condition", r.Prog.Pos(instrPos(returnOf(x))))
@@ -785,8 +792,32 @@ func c06Sticky(c *c06Ctx, reach map[*ssa.Function]bool) {
 					}
 				}
 			}
+			if w.holder != c.eval {
+				// the helper writes the condition on each of its paths, from the Result it was handed
+				h := w.holder
+				for x := range reachFromAvoiding(h.Blocks[0], map[*ssa.BasicBlock]bool{w.call.Block(): true}) {
+					if isReturnBlock(x) {
+						ok, detail = false, "a path of "+shortFunc(h)+" returns without writing the condition"
+					}
+				}
+				lroot, _ := accessPath(w.load)
+				lp, isP := lroot.(*ssa.Parameter)
+				var evalRes ssa.Value
+				for _, st := range storesToFieldOf(c.eval, pkgStrategy, "Result", "IsFailed") {
+					evalRes, _ = accessPath(st.Addr)
+				}
+				if !isP {
+					ok, detail = false, "the helper does not read IsFailed from the Result it receives"
+				} else {
+					for _, src := range r.Prog.stepOut(lp) {
+						if stripConv(src) != evalRes {
+							ok, detail = false, "the helper is handed another Result than the one the evaluation decides on"
+						}
+					}
+				}
+			}
 			// load is fresh at the call
-			if !freshAt(w.load, w.call, flagKillers(c.eval, pkgStrategy, "Result", "IsFailed")) {
+			if !freshAt(w.load, w.call, flagKillers(w.holder, pkgStrategy, "Result", "IsFailed")) {
 				ok, detail = false, "IsFailed may change between its load and the condition write"
 			}
 			if !hasPathSuffix(w.call.Call.Args[0], "NewStatus") {
@@ -844,29 +875,87 @@ func c06IsParentAnnotations(r *Run, fn *ssa.Function, v ssa.Value) bool {
 }
 
 type c06CondWrite struct {
-	call *ssa.Call
-	load *ssa.UnOp
-	typ  string
+	call   *ssa.Call
+	load   *ssa.UnOp
+	typ    string
+	holder *ssa.Function         // function containing the update (the evaluation or a helper it calls)
+	outers []ssa.CallInstruction // in the evaluation: the update itself, or the calls of the helper
+}
+
+func inRepoFunc(g *ssa.Function) bool {
+	root := g
+	for root.Parent() != nil {
+		root = root.Parent()
+	}
+	return len(g.Blocks) > 0 && root.Pkg != nil && (root.Pkg.Pkg.Path() == repoMod || strings.HasPrefix(root.Pkg.Pkg.Path(), repoMod+"/"))
+}
+
+// c06ResultHelpers lists fn and the repository functions it calls (transitively, bounded) with a
+// *Result argument, each with its call sites in fn.
+func c06ResultHelpers(fn *ssa.Function) (order []*ssa.Function, sites map[*ssa.Function][]ssa.CallInstruction) {
+	sites = map[*ssa.Function][]ssa.CallInstruction{}
+	order = []*ssa.Function{fn}
+	var visit func(g *ssa.Function, via ssa.CallInstruction, depth int)
+	seen := map[*ssa.Function]bool{fn: true}
+	visit = func(g *ssa.Function, via ssa.CallInstruction, depth int) {
+		for _, ci := range callsIn(g) {
+			h := staticCallee(ci.Common())
+			if h == nil || !inRepoFunc(h) {
+				continue
+			}
+			passes := false
+			for _, a := range ci.Common().Args {
+				if isNamedType(a.Type(), pkgStrategy, "Result") {
+					passes = true
+				}
+			}
+			if !passes {
+				continue
+			}
+			top := via
+			if top == nil {
+				top = ci
+			}
+			sites[h] = append(sites[h], top)
+			if !seen[h] && depth < 2 {
+				seen[h] = true
+				order = append(order, h)
+				visit(h, top, depth+1)
+			}
+		}
+	}
+	visit(fn, nil, 0)
+	return order, sites
 }
 
 // c06FlagConditionWrite finds the UpdateExtendedDaemonSetReplicaSetStatusCondition call whose status
-// argument is BoolToCondition(load Result.<flag>).
+// argument is BoolToCondition(load Result.<flag>), in the evaluation function or in a helper that
+// it hands its Result to.
 func c06FlagConditionWrite(fn *ssa.Function, flag string) *c06CondWrite {
-	for _, ci := range callsIn(fn) {
-		call, ok := ci.(*ssa.Call)
-		if !ok || calleeName(&call.Call) != pkgERSCond+".UpdateExtendedDaemonSetReplicaSetStatusCondition" || len(call.Call.Args) < 4 {
-			continue
+	order, sites := c06ResultHelpers(fn)
+	for _, h := range order {
+		for _, ci := range callsIn(h) {
+			call, ok := ci.(*ssa.Call)
+			if !ok || calleeName(&call.Call) != pkgERSCond+".UpdateExtendedDaemonSetReplicaSetStatusCondition" || len(call.Call.Args) < 4 {
+				continue
+			}
+			conv, ok := stripConv(call.Call.Args[3]).(*ssa.Call)
+			if !ok || calleeName(&conv.Call) != pkgERSCond+".BoolToCondition" {
+				continue
+			}
+			ld, ok := conv.Call.Args[0].(*ssa.UnOp)
+			if !ok || !isResultFlagLoad(ld, flag) {
+				continue
+			}
+			t, _ := condTypeConst(call)
+			w := &c06CondWrite{call: call, load: ld, typ: t, holder: h}
+			if h == fn {
+				w.outers = []ssa.CallInstruction{call}
+			} else {
+				w.outers = sites[h]
+			}
+			return w
 		}
-		conv, ok := stripConv(call.Call.Args[3]).(*ssa.Call)
-		if !ok || calleeName(&conv.Call) != pkgERSCond+".BoolToCondition" {
-			continue
-		}
-		ld, ok := conv.Call.Args[0].(*ssa.UnOp)
-		if !ok || !isResultFlagLoad(ld, flag) {
-			continue
-		}
-		t, _ := condTypeConst(call)
-		return &c06CondWrite{call: call, load: ld, typ: t}
 	}
 	return nil
 }
@@ -1380,20 +1469,44 @@ func c06Wire(c *c06Ctx, reach map[*ssa.Function]bool) {
 	}
 	// PodRestarting: writer = the update whose time derives from MostRecentRestart
 	var writer *ssa.Call
-	for _, ci := range callsIn(c.eval) {
-		call, ok := ci.(*ssa.Call)
-		if !ok || calleeName(&call.Call) != pkgERSCond+".UpdateExtendedDaemonSetReplicaSetStatusCondition" || len(call.Call.Args) < 8 {
-			continue
+	isRecentRestart := func(v ssa.Value) bool {
+		e, isE := v.(*ssa.Extract)
+		if !isE || e.Index != 0 {
+			return false
 		}
-		if dependsOn(call.Call.Args[1], func(v ssa.Value) bool {
-			e, isE := v.(*ssa.Extract)
-			if !isE || e.Index != 0 {
-				return false
+		cc, isC := e.Tuple.(*ssa.Call)
+		return isC && calleeName(&cc.Call) == pkgPodUtils+".MostRecentRestart"
+	}
+	helpers, _ := c06ResultHelpers(c.eval)
+	for _, h := range helpers {
+		for _, ci := range callsIn(h) {
+			call, ok := ci.(*ssa.Call)
+			if !ok || calleeName(&call.Call) != pkgERSCond+".UpdateExtendedDaemonSetReplicaSetStatusCondition" || len(call.Call.Args) < 8 {
+				continue
 			}
-			cc, isC := e.Tuple.(*ssa.Call)
-			return isC && calleeName(&cc.Call) == pkgPodUtils+".MostRecentRestart"
-		}) {
-			writer = call
+			// the time argument, possibly a field of a struct handed over by the evaluation
+			if dependsOn(call.Call.Args[1], func(v ssa.Value) bool {
+				if isRecentRestart(v) {
+					return true
+				}
+				if _, isParamField := stripConv(v).(*ssa.Parameter); !isParamField {
+					ps := pathsOf(stripConv(v))
+					if len(ps) != 1 || len(ps[0].fields) == 0 {
+						return false
+					}
+					if _, isP := ps[0].root.(*ssa.Parameter); !isP {
+						return false
+					}
+				}
+				for _, src := range valueSources(r.Prog, v) {
+					if src != stripConv(v) && dependsOn(src, isRecentRestart) {
+						return true
+					}
+				}
+				return false
+			}) {
+				writer = call
+			}
 		}
 	}
 	if writer == nil {
@@ -1527,14 +1640,22 @@ func c06ConditionTypesRead(r *Run, fn *ssa.Function) ([]string, bool) {
 		} else {
 			facts = append(facts, k.normCond(res, true)...) // `return a && cond(...)`: true means the returned expression holds
 		}
-		for _, a := range condTrueAtoms(facts) {
-			if a.val != triTrue {
-				continue
+		// the condition may be consulted in a helper of the reader: look at every alternative
+		stop := func(g *ssa.Function) bool { return g.Pkg != nil && g.Pkg.Pkg.Path() == pkgERSCond }
+		for _, alt := range expandAlternatives(r.Prog, facts, nil, 0, stop) {
+			var fs []Fact
+			for _, xf := range alt {
+				fs = append(fs, xf.Fact)
 			}
-			if a.typ == "" {
-				return nil, false
+			for _, a := range condTrueAtoms(fs) {
+				if a.val != triTrue {
+					continue
+				}
+				if a.typ == "" {
+					return nil, false
+				}
+				set[a.typ] = true
 			}
-			set[a.typ] = true
 		}
 	}
 	var out []string
@@ -2029,6 +2150,22 @@ func condWriteSites(fns map[*ssa.Function]bool) []condWriteSite {
 			if len(cs) > 0 {
 				for _, c := range cs {
 					expand(c, call, bindArgs(w, c.Common().Args, env), depth+1)
+				}
+				return
+			}
+		}
+		// the type is a column of a local table of {type, …} rows driving a loop: one site per row
+		if rows, okR := rowAlternatives(tv); okR {
+			allConst := true
+			for _, rv := range rows {
+				if _, isC := constString(rv); !isC {
+					allConst = false
+				}
+			}
+			if allConst {
+				for _, rv := range rows {
+					t, _ := constString(rv)
+					out = append(out, condWriteSite{outer: outer, call: call, env: env, typ: t, typOK: true})
 				}
 				return
 			}
